@@ -425,12 +425,224 @@ def run_e2e(ctx, res, jinja2):
             if got != expect(tree, 0):
                 res.violate(f"C07:e2e:{envname}:recursive", f"recursive loop over {tree}: {got!r} != {expect(tree, 0)!r}",
                             {"src": rsrc, "tree": tree, "env": envname, "got": got})
-    return {"renders": renders, "distinct": len(distinct), "templates": n_templates, "samples": samples,
+    # recursive loops with an else clause (nested loop(children) over empty sized containers / undefined, all routes)
+    rel = run_recursive_else(ctx, res, jinja2, env, aenv)
+    renders += rel["renders"]
+    samples = samples + rel["samples"][:1]
+    return {"renders": renders, "distinct": len(distinct) + rel["distinct"], "templates": n_templates, "samples": samples,
+            "recursive_else": {k: v for k, v in rel.items() if k != "samples"},
             "rule": (f"{n_templates} random loop bodies printing 1-4 loop attributes, each read directly or from a nested scope of the "
                      "same loop (if, with, set block, filter block, call block, else branch / iterable / filter of a nested loop), "
                      "with/without a loop filter and an "
                      "else branch, rendered in sync and async environments over lists/generators/async generators; "
-                     "unsized iterables; random recursive trees (depth <= 4)")}
+                     "unsized iterables; random recursive trees (depth <= 4); "
+                     f"recursive loops WITH an else clause over {rel['trees']} trees whose leaves pass an empty list / tuple / dict / "
+                     "str / undefined to loop(children) (6 bodies x 3 else texts x optional loop filter): the nested call must "
+                     "equal the same loop run at the top level over the same children (one-level unfolding, built from "
+                     "top-level renders only), and sized / generator / iterator / async-generator forms of the tree must "
+                     "agree, sync and async")}
+
+
+# ---------------------------------------------------------------------------------------------------------------
+# recursive loops WITH an else clause: a nested loop(children) call is the same loop as the top-level one
+# ---------------------------------------------------------------------------------------------------------------
+# abstract tree: container = {"k": kind, "c": [node, …]}, node = {"v": int, "kids": container}
+#   kind of an EMPTY container: list [] | tuple () | dict {} | str '' | undef (the node has no 'kids' key; at the top level the
+#   variable `tree` is not passed) ; kind of a non-empty container: list | tuple
+EMPTY_KINDS = ["list", "tuple", "dict", "str", "undef"]
+
+# (name, loop body, with @C@ standing for the nested call / the already rendered children)
+REC_BODIES = [
+    ("depth", "[{{ loop.depth0 + base }}:{{ n.v }}@C@]"),
+    ("depth1-index", "[{{ loop.depth + base }}.{{ loop.index }}/{{ loop.length }}:{{ n.v }}@C@]"),
+    ("call-first", "(@C@{{ n.v }}{{ ',' if not loop.last }})"),
+    ("set", "{% set r %}@C@{% endset %}[{{ n.v }}{{ r }}{{ loop.revindex }}]"),
+    ("if-guard-free", "{% if loop.first %}^{% endif %}{{ n.v }}<@C@>"),
+    ("nextitem", "[{{ n.v }}>{{ (loop.nextitem|default({'v': 'U'})).v }}@C@]"),
+]
+# the else text must not mention `base` (the nested call keeps the render's base, only loop.depth moves) nor `loop`
+REC_ELSES = ["<leaf>", "<e{{ 7 * 6 }}>", "{% if true %}-{% endif %}"]
+REC_FILTERS = [None, None, None, "n.v != 0", "n.v % 2 == 1", "n.v < 0"]
+
+
+def rec_sources(body, els, filt):
+    """(recursive template, its one-level unfolding): the unfolding is the SAME loop without `recursive`, where the nested
+    call loop(n.kids) is replaced by n.sub, the rendering of the children obtained from a top-level render"""
+    head = "{%% for n in tree%s%s %%}"
+    tail = "{% else %}" + els + "{% endfor %}"
+    f = f" if {filt}" if filt else ""
+    rec = head % (f, " recursive") + body.replace("@C@", "{{ loop(n.kids) }}") + tail
+    flat = head % (f, "") + body.replace("@C@", "{{ n.sub }}") + tail
+    return rec, flat
+
+
+def rec_materialize(cont, form, with_sub=None):
+    """abstract container -> value handed to jinja.  form: sized | gen | iter | agen.  `with_sub`: list of strings, one per node,
+    stored as node['sub'] (nodes then carry no kids).  Returns `missing` marker (None) for an undefined container in sized form."""
+    nodes = []
+    for i, n in enumerate(cont["c"]):
+        d = {"v": n["v"]}
+        if with_sub is not None:
+            d["sub"] = with_sub[i]
+        else:
+            k = rec_materialize(n["kids"], form)
+            if k is not None:
+                d["kids"] = k
+        nodes.append(d)
+    if form == "sized":
+        kind = cont["k"]
+        if kind == "undef":
+            return None
+        if not nodes:
+            return {"list": [], "tuple": (), "dict": {}, "str": ""}[kind]
+        return tuple(nodes) if kind == "tuple" else nodes
+    return make_iterable(form, nodes)
+
+
+def gen_rec_tree(rng, depth, top=False):
+    n = rng.randrange(0, 4) if not top else rng.randrange(0 if rng.random() < 0.15 else 1, 4)
+    if depth <= 0 or (not top and rng.random() < 0.35):
+        n = 0
+    nodes = [{"v": rng.randrange(5), "kids": gen_rec_tree(rng, depth - 1)} for _ in range(n)]
+    return {"k": rng.choice(EMPTY_KINDS) if not nodes else rng.choice(["list", "tuple"]), "c": nodes}
+
+
+def rec_size(cont):
+    return 1 + sum(rec_size(n["kids"]) for n in cont["c"])
+
+
+def rec_empty_kinds(cont):
+    out = set()
+    for n in cont["c"]:
+        if not n["kids"]["c"]:
+            out.add(n["kids"]["k"])
+        out |= rec_empty_kinds(n["kids"])
+    return out
+
+
+class RecRenderer:
+    def __init__(self, env, aenv):
+        self.envs = {"sync": env, "async": aenv}
+        self.cache = {}
+        self.aloop = asyncio.new_event_loop()
+        self.renders = 0
+
+    def close(self):
+        self.aloop.close()
+
+    def render(self, envname, src, tree, base):
+        key = (envname, src)
+        try:
+            t = self.cache.get(key)
+            if t is None:
+                t = self.cache[key] = self.envs[envname].from_string(src)
+            kw = {"base": base}
+            if tree is not None:
+                kw["tree"] = tree
+            self.renders += 1
+            if envname == "sync":
+                return t.render(**kw)
+            return self.aloop.run_until_complete(t.render_async(**kw))
+        except Exception as ex:  # noqa
+            return f"raised:{type(ex).__name__}:{ex}"
+
+    def full(self, envname, rec, cont, form, base=0):
+        return self.render(envname, rec, rec_materialize(cont, form), base)
+
+    def unfolded(self, envname, flat, cont, base=0):
+        """the rendering of the loop over `cont` built ONLY from top-level (non-recursive) renders: children first, then this level
+        with their renderings plugged in as n.sub"""
+        subs = [self.unfolded(envname, flat, n["kids"], base + 1) for n in cont["c"]]
+        return self.render(envname, flat, rec_materialize(cont, "sized", with_sub=subs), base)
+
+
+def rec_locate(rr, envname, rec, flat, cont, base):
+    """smallest sub-container on which the recursive render and its unfolding still differ"""
+    for n in cont["c"]:
+        k = n["kids"]
+        if rr.full(envname, rec, k, "sized", base + 1) != rr.unfolded(envname, flat, k, base + 1):
+            return rec_locate(rr, envname, rec, flat, k, base + 1)
+    # drop siblings that are not needed
+    cur = cont
+    changed = True
+    while changed and len(cur["c"]) > 1:
+        changed = False
+        for i in range(len(cur["c"])):
+            cand = {"k": cur["k"], "c": cur["c"][:i] + cur["c"][i + 1:]}
+            if rr.full(envname, rec, cand, "sized", base) != rr.unfolded(envname, flat, cand, base):
+                cur, changed = cand, True
+                break
+    return cur, base
+
+
+def run_recursive_else(ctx, res, jinja2, env, aenv):
+    rng = ctx.rng("e2e-recursive-else")
+    rr = RecRenderer(env, aenv)
+    n_trees = ctx.pick(150, 1500)
+    distinct, kinds_hit, leaf_calls, samples = set(), {}, 0, []
+    combos = [(b, e, f) for b in REC_BODIES for e in REC_ELSES for f in REC_FILTERS]
+    try:
+        # every empty kind directly below a one-node top level, every body: the smallest members of the family, always run
+        fixed = [{"k": "list", "c": [{"v": 1, "kids": {"k": k, "c": []}}]} for k in EMPTY_KINDS]
+        fixed += [{"k": k, "c": []} for k in EMPTY_KINDS]
+        work = [(t, (b, REC_ELSES[0], None)) for t in fixed for b in REC_BODIES]
+        work += [(gen_rec_tree(rng, 3, top=True), rng.choice(combos)) for _ in range(n_trees)]
+        for cont, ((bname, body), els, filt) in work:
+            rec, flat = rec_sources(body, els, filt)
+            for k in rec_empty_kinds(cont):
+                kinds_hit[k] = kinds_hit.get(k, 0) + 1
+            leaf_calls += sum(1 for _ in _leaves(cont))
+            outs = {}
+            for envname in ("sync", "async"):
+                got = rr.full(envname, rec, cont, "sized")
+                exp = rr.unfolded(envname, flat, cont)
+                outs[(envname, "sized")] = got
+                distinct.add((rec, repr(cont), envname, "sized"))
+                if got != exp:
+                    small, base = rec_locate(rr, envname, rec, flat, cont, 0)
+                    ek = sorted(rec_empty_kinds(small))
+                    key = f"C07:e2e:{envname}:recursive-else:" + (f"nested-empty-{ek[0]}" if ek else "nested")
+                    sg = rr.full(envname, rec, small, "sized", base)
+                    se = rr.unfolded(envname, flat, small, base)
+                    res.violate(key, f"{envname} render of {rec!r} (base={base}) over tree {rec_show(small)}: nested loop(n.kids) "
+                                     f"gave {sg!r}, the same loop run at the top level over the same children gives {se!r}",
+                                {"rec_src": rec, "flat_src": flat, "tree": small, "base": base, "env": envname, "form": "sized",
+                                 "got": sg, "expected": se})
+            # the other routes: every container as generator / iterator (sync, async) and as async generator (async)
+            for envname, form in (("sync", "gen"), ("sync", "iter"), ("async", "gen"), ("async", "agen")):
+                outs[(envname, form)] = rr.full(envname, rec, cont, form)
+                distinct.add((rec, repr(cont), envname, form))
+            ref = outs[("sync", "gen")]
+            for (envname, form), got in outs.items():
+                if got != ref:
+                    ek = sorted(rec_empty_kinds(cont))
+                    key = f"C07:e2e:{envname}:recursive-else:form-{form}"
+                    res.violate(key, f"{envname} render of {rec!r} over tree {rec_show(cont)} with every container as {form}: "
+                                     f"{got!r}, but with every container as a generator (sync): {ref!r}"
+                                     + (f" (empty sized children present: {ek})" if ek else ""),
+                                {"rec_src": rec, "tree": cont, "base": 0, "env": envname, "form": form, "got": got,
+                                 "expected": ref})
+            if len(samples) < 2 and rec_size(cont) > 3:
+                samples.append({"src": rec, "tree": rec_show(cont), "expected": ref})
+    finally:
+        rr.close()
+    return {"renders": rr.renders, "distinct": len(distinct), "trees": len(work), "empty_kinds_hit": kinds_hit,
+            "nested_calls_on_empty": leaf_calls, "samples": samples}
+
+
+def _leaves(cont):
+    for n in cont["c"]:
+        if not n["kids"]["c"]:
+            yield n
+        yield from _leaves(n["kids"])
+
+
+def rec_show(cont):
+    """compact text of an abstract tree: v(children) ; empty containers by kind"""
+    if not cont["c"]:
+        return {"list": "[]", "tuple": "()", "dict": "{}", "str": "''", "undef": "<undefined>"}[cont["k"]]
+    o, c = ("(", ")") if cont["k"] == "tuple" else ("[", "]")
+    return o + ", ".join(f"{{v: {n['v']}, kids: {rec_show(n['kids'])}}}" for n in cont["c"]) + c
 
 
 def replay(ctx, case):
@@ -439,4 +651,16 @@ def replay(ctx, case):
         ops = [tuple(o) if isinstance(o, list) else o for o in c["ops"]]
         return {"impl": run_any(c["mode"], c["form"], c["xs"], ops, c.get("depth0", 0)),
                 "spec": spec_of(c["form"], c["xs"], ops, c.get("depth0", 0))}
+    if "rec_src" in c:
+        jinja2 = core.import_jinja()
+        rr = RecRenderer(jinja2.Environment(), jinja2.Environment(enable_async=True))
+        try:
+            out = {"got": rr.full(c["env"], c["rec_src"], c["tree"], c["form"], c.get("base", 0))}
+            if "flat_src" in c:
+                out["top_level_unfolding"] = rr.unfolded(c["env"], c["flat_src"], c["tree"], c.get("base", 0))
+            else:
+                out["sync_generator_form"] = rr.full("sync", c["rec_src"], c["tree"], "gen", c.get("base", 0))
+        finally:
+            rr.close()
+        return out
     return c
